@@ -9,7 +9,7 @@ import (
 func init() {
 	register(&propInfo{
 		ID:          "C02",
-		Explanation: "Decides the *shape* of the bytes each shipped encoder emits, for all values at once, against a specification of the documented format written independently in the checker (README.md, plenccore/wire.go): (S.spec) the symbolic emission term of every codec's Append - tag · zig-zag varint for signed ints; tag · plain varint for unsigned/flat ints and bools (1/0); tag · little-endian 4/8 bytes for floats; [tag · varuint(len)] · bytes for strings and byte slices; a length-delimited frame around seconds=field 1 / nanoseconds=field 2 for times; a frame around each non-omitted field in declaration order with its precomputed tag for structs; nothing for nil and the pointee's encoding otherwise for pointers; packed elements for scalar slices; tag · count · (length · element)* for slices of length-delimited elements and maps (entries key=field 1, value=field 2, each unless omitted) - with every length prefix equal to Φ of what follows; (T.fieldtag) field tags are AppendTag(nil, field codec's wire type, field index); (T.wireconst/T.tagfmt/T.varint-deleg) wire-type constants 0,1,2,3,5, tag layout index<<3|wt, signed = unsigned∘zig-zag; (T.order/T.anyorder) fields encoded by ranging over the field slice and decoded by index with only the offset carried between fields; (T.slicewrap) packed vs counted selection by element wire type. A change applied consistently to Append, Size and Read changes the term and is caught.",
+		Explanation: "Decides the *shape* of the bytes each shipped encoder emits, for all values at once, against a specification of the documented format written independently in the checker (README.md, plenccore/wire.go): (S.spec) the symbolic emission term of every codec's Append - tag · zig-zag varint for signed ints; tag · plain varint for unsigned/flat ints and bools (1/0); tag · little-endian 4/8 bytes for floats; [tag · varuint(len)] · bytes for strings and byte slices; a length-delimited frame around seconds=field 1 / nanoseconds=field 2 for times; a frame around each non-omitted field in declaration order with its precomputed tag for structs; nothing for nil and the pointee's encoding otherwise for pointers; packed elements for scalar slices; tag · count · (length · element)* for slices of length-delimited elements and maps (entries key=field 1, value=field 2, each unless omitted) - with every length prefix equal to Φ of what follows; (T.fieldtag) field tags are AppendTag(nil, field codec's wire type, field index); (T.wireconst/T.tagfmt/T.varint-deleg) wire-type constants 0,1,2,3,5, tag layout index<<3|wt, signed = unsigned∘zig-zag; (T.order/T.anyorder) fields encoded by ranging over the field slice and decoded by index with only the offset carried between fields; (T.slicewrap) packed vs counted selection by element wire type. A change applied consistently to Append, Size and Read changes the term and is caught. (X.eface.direct) a value passed by value is encoded from the value, not from the interface word; (X.dom.build) the index in a tag is the decimal number in the struct tag; (X.clear.*, X.tightguard) Unmarshal reads omitted fields of a re-used scratch key or element as zero and turns away no length or count the writer produces.",
 		NotDecided:  "That AppendVarUint's loop is LEB128 and ZigZag is the protobuf bijection (numeric, see C18); golden-file bytes.",
 		Assumptions: []string{"A4", "A5"},
 		Run: func(c *Ctx) {
@@ -42,6 +42,14 @@ func init() {
 			// named types get the codec of their own kind; the proto codecs' bytes are documented too
 			ruleKind(c)
 			ruleProtoGrammar(c)
+			// the bytes of a value passed by value are those of the value (not of the interface word); the index in a
+			// tag is the decimal number written in the struct tag; and "Unmarshal accepts any such encoding": a re-used
+			// scratch key or element is cleared first, so fields the encoding omits read as zero
+			ruleEfaceDirect(c)
+			ruleBuildGuards(c)
+			ruleClearBeforeRead(c)
+			// a length or count the writer legitimately produces is not turned away
+			ruleTightGuards(c, decodeBound(c.P), nil)
 		},
 	})
 }
